@@ -21,8 +21,39 @@ PROPERTY_CLAUSES = {"WakeExact", "TimeMonotone", "Accounting", "PartitionIndepen
 
 def drive_one(vh: Vh, beh: Dict[str, Any], tid: int, hoist: bool = False) -> List[Dict[str, Any]]:
     scripts = beh["scripts"]
-    vh.call("driver.new", scripts=scripts, hoist=hoist)
-    ev = [{"tid": tid, "ev": "Init", "scripts": scripts}]
+    c0 = int(beh.get("clock0", 0))
+    vh.call("driver.new", scripts=scripts, hoist=hoist, clock=c0)
+    ev = [{"tid": tid, "ev": "Init", "scripts": scripts, "clock0": c0}]
+    if beh.get("policy") == "grow":
+        # the caller's loop of AsyncRuntimeRunner::run_instructions: the same slice again, one cycle more after a run that returned
+        # MaxCycles without executing a cycle; stop when every resumption and every event the scripts can produce has been seen
+        slice_ = int(beh["slice0"])
+        need_res = sum(1 + sum(1 for it in sc if it[0] == "S") for sc in scripts)
+        need_ev = 0
+        for sc in scripts:
+            seg = False
+            for it in sc + [["S", 0]]:
+                if it[0] == "E":
+                    seg = True
+                else:
+                    need_ev += int(seg)
+                    seg = False
+        maxsleep = max([it[1] for sc in scripts for it in sc if it[0] == "S"] or [0])
+        fence = max(0, maxsleep + 1 - slice_) + need_res + need_ev + 2
+        got_res = got_ev = runs = 0
+        budgets = []
+        while (got_res < need_res or got_ev < need_ev) and runs < fence + 5:
+            r = vh.call("driver.run_for", b=slice_)
+            runs += 1
+            budgets.append(slice_)
+            ev.append({"tid": tid, "ev": "RunFor", "b": slice_, "ret": {"ev": r["ev"], "cycles": r["cycles"]}, "clock": r["clock"], "newlog": r["newlog"]})
+            got_res += len(r["newlog"])
+            got_ev += int(r["ev"] != 0)
+            if r["ev"] == 0 and r["cycles"] == 0:
+                slice_ += 1
+        beh["budgets"] = budgets
+        beh["caller"] = {"runs": runs, "fence": fence, "done": got_res >= need_res and got_ev >= need_ev, "final_slice": slice_, "maxsleep": maxsleep}
+        return ev
     for b in beh["budgets"]:
         r = vh.call("driver.run_for", b=b)
         ev.append({"tid": tid, "ev": "RunFor", "b": b, "ret": {"ev": r["ev"], "cycles": r["cycles"]}, "clock": r["clock"], "newlog": r["newlog"]})
@@ -39,8 +70,9 @@ def drive_shard(shard_id: int, items: List[Dict[str, Any]], extra: Any):
             tid += 1
             # every other behaviour runs with its sleep futures created at task start and awaited later (same meaning)
             hoist = (k % 2 == 1)
-            meta[tid] = dict(beh, hoist=hoist)
+            beh = dict(beh)
             events.extend(drive_one(vh, beh, tid, hoist))
+            meta[tid] = dict(beh, hoist=hoist)
     finally:
         vh.close()
     return events, meta
@@ -84,6 +116,26 @@ def random_behaviours(seed: int, n: int) -> List[Dict[str, Any]]:
             scripts.append(sc)
         budgets = [rnd.choice([1, 2, 3, 5, 8, 100]) for _ in range(rnd.randint(1, 25))]
         out.append({"scripts": scripts, "budgets": budgets})
+        if len(out) % 3 == 0:     # a driver constructed on a clock that is already running (AsyncDriver::with_clock, as AsyncRuntimeRunner does)
+            out[-1]["clock0"] = rnd.choice([1, 2, 7, 1000, 65535, 1_000_000])
+    return out
+
+
+def caller_behaviours(seed: int, n: int) -> List[Dict[str, Any]]:
+    """scripts for the caller-policy campaign (SchedulerLive.tla, Policy = "grow"): sleeps well beyond the first slice"""
+    rnd = random.Random(seed)
+    out = []
+    for k in range(n):
+        scripts = []
+        for _t in range(rnd.randint(1, 4)):
+            sc = []
+            for _i in range(rnd.randint(0, 7)):
+                sc.append(["E"] if rnd.random() < 0.25 else ["S", rnd.choice([0, 1, 2, 3, 5, 9, 17, 40])])
+            scripts.append(sc)
+        beh = {"scripts": scripts, "budgets": [], "policy": "grow", "slice0": rnd.choice([1, 1, 2, 3, 10])}
+        if k % 2:
+            beh["clock0"] = rnd.choice([1, 7, 1000, 99999])
+        out.append(beh)
     return out
 
 
@@ -298,6 +350,66 @@ def device_tasks(cr: CheckRun, n: int) -> None:
     cr.cov["evaluations"] += done
 
 
+def live_model(cr: CheckRun, quick: bool) -> None:
+    """SchedulerLive.tla: liveness under weak fairness, no state constraint.  Progress / EveryWake hold for the two callers the
+    repository has (growing slice, one huge budget) and FAIL for a caller that repeats a small budget - the contrast is run every
+    time as the vacuity guard of the two properties."""
+    from concurrent.futures import ThreadPoolExecutor
+    t = "quick" if quick else "thorough"
+    jobs = [(f"MCSchedulerLive_grow_{t}.cfg", True), (f"MCSchedulerLive_max_{t}.cfg", True), ("MCSchedulerLive_fixed_quick.cfg", False)]
+    def one(j):
+        cfg, _ = j
+        return j, run_tlc(SD, "MCSchedulerLive", cfg, workers=max(2, vlib.NCPU // 3), tag="C18-" + cfg, timeout=3400, heap="6g")
+    with ThreadPoolExecutor(3) as ex:
+        for (cfg, expect_ok), res in ex.map(one, jobs):
+            violated = "Temporal propert" in res.out and "violated" in res.out
+            if expect_ok:
+                if violated or res.invariant_violated:
+                    raise MachineryError(f"SchedulerLive ({cfg}) violates a property:\n" + res.out[-1500:])
+                tlc_expect_ok(res, cfg)
+                cr.add_tlc(cfg, res)
+            elif not violated:
+                raise MachineryError(f"vacuity: the fixed-budget caller of {cfg} was expected to stall (Progress violated) and did not")
+    cr.mark("liveness")
+
+
+def _caller_job(arg):
+    shard_id, items = arg
+    vh = Vh()
+    out = []
+    try:
+        for beh in items:
+            beh = dict(beh)
+            drive_one(vh, beh, 1)
+            c = beh["caller"]
+            if not c["done"] or c["runs"] > c["fence"] or max(beh["budgets"] or [0]) > max(int(beh["slice0"]), c["maxsleep"] + 1):
+                out.append(beh)
+    finally:
+        vh.close()
+    return len(items), out
+
+
+def caller_progress(cr: CheckRun, items: List[Dict[str, Any]]) -> None:
+    # progress and the bound on the number of runs / on the slice (the liveness side; not a sentence of C18 -> drift)
+    res = vlib.pmap(_caller_job, [(i, sh) for i, sh in enumerate(vlib.shard_list(items, vlib.NCPU))])
+    stuck = [b for r in res for b in r[1]]
+    for beh in stuck[:10]:
+        cr.add_drift(f"action=Caller clause=CallerProgress scripts={beh['scripts']} slice0={beh['slice0']} clock0={beh.get('clock0', 0)} caller={beh['caller']}")
+    cr.cov["caller_policy_runs"] = sum(r[0] for r in res)
+    cr.cov["caller_policy_stuck"] = len(stuck)
+    ntr, nev, bad = vlib.trace_campaign("C18", SD, "TraceScheduler", "TraceScheduler.cfg", items, drive_shard, "caller-policy")
+    for b, beh in bad:
+        rec = {"behaviour": beh, "clause": b["clause"], "line": b["line"], "detail": b["detail"]}
+        if b["clause"] in PROPERTY_CLAUSES:
+            cr.violation(b["clause"], f"AsyncDriver under the growing-slice caller: {b['clause']} fails for scripts={beh['scripts']} budgets={beh['budgets'][:12]} clock0={beh.get('clock0', 0)} detail={b['detail']}", rec)
+        else:
+            cr.add_drift(f"action=RunFor clause={b['clause']} (caller policy) scripts={beh['scripts']} detail={b['detail']}")
+    cr.cov["traces_validated_against_impl"] += ntr
+    cr.cov["evaluations"] += nev
+    cr.cov.setdefault("campaigns", []).append({"name": "caller-policy", "traces": ntr, "events": nev, "rejected_steps": len(bad)})
+    cr.mark("caller-policy")
+
+
 def run(cr: CheckRun) -> None:
     vlib.build_vh()
     quick = cr.tier == "quick"
@@ -326,6 +438,8 @@ def run(cr: CheckRun) -> None:
     rnd = random_behaviours(cr.seed, 1500 if quick else 20000)
     campaign(cr, rnd, "random")
     campaign(cr, long_behaviours(cr.seed + 18, 32 if quick else 600), "long-horizon")
+    live_model(cr, quick)
+    caller_progress(cr, caller_behaviours(cr.seed + 29, 300 if quick else 5000))
     cpu_equivalence(cr, 120 if quick else 1500)
     device_tasks(cr, 400 if quick else 6000)
     cr.cov["distinct_nontrivial"] = len({json.dumps(b, sort_keys=True) for b in items + sitems + rnd})
